@@ -44,7 +44,13 @@ def render(path_in, path_out, subst):
 
 
 def render_manifests():
-    subst = {"@REPO@": REPO}
+    gdir = os.path.join(HARNESS, "g")
+    members = ""
+    if os.path.isdir(gdir):
+        for d in sorted(os.listdir(gdir)):
+            if os.path.exists(os.path.join(gdir, d, "Cargo.toml")):
+                members += f', "g/{d}"'
+    subst = {"@REPO@": REPO, "@GMEMBERS@": members}
     render(os.path.join(HARNESS, "Cargo.toml.in"), os.path.join(HARNESS, "Cargo.toml"), subst)
     render(os.path.join(HARNESS, "vh", "Cargo.toml.in"), os.path.join(HARNESS, "vh", "Cargo.toml"), subst)
     lock = os.path.join(HARNESS, "Cargo.lock")
